@@ -1079,6 +1079,9 @@ func tryReplay(cfg *runConfig, o *Obligation, rec *replayRecord, light bool) (bo
 		if len(expected) == 0 {
 			return false, "no comparable outputs"
 		}
+		if len(g.con.Modifies) > 0 || g.con.ModAll {
+			return false, "the function modifies state the clause may depend on; equal outputs alone do not establish a violation"
+		}
 		if goalUninterpreted(o) {
 			return false, "the failing clause mentions uninterpreted symbols (recursive spec function, uninterpreted float operation or library function): equal outputs do not establish that it is false on the real code; obligation undecided on this input"
 		}
@@ -1424,7 +1427,24 @@ func confirmBySolver(cfg *runConfig, o *Obligation, rb *rebuilder, testOut strin
 				clause = ""
 			}
 		}()
-		env := g.envAt(g.entry, results)
+		// post-state: everything the function may modify is unknown (fresh), so that "unsat" means
+		// the clause is false whatever the final heap is; unmodified state equals the entry state
+		post := g.entry.clone()
+		if g.con.ModAll {
+			for k := range g.heapSortsM {
+				post.heaps[k] = g.freshConst("cf."+k, g.heapSortsM[k])
+			}
+		} else {
+			for k := range g.modifiesKeys(g.con, g.pkgTypes()) {
+				post.heaps[k] = g.freshConst("cf."+k, g.heapSortsM[k])
+			}
+		}
+		for _, m := range g.con.Modifies {
+			if gv, ok := g.cs.Ghosts[m]; ok {
+				post.ghost[m] = g.freshConst("cfgh."+m, g.sortOf(g.resolveType(gv.Type, g.pkgTypes())))
+			}
+		}
+		env := g.envAt(post, results)
 		clause = env.eval(o.Clause.E).S
 	}()
 	if clause == "" {
